@@ -68,7 +68,19 @@ def accumulator_writes(ctx):
             elif isinstance(n, ast.Call) and isinstance(n.func, ast.Attribute) and _base_attr(n.func.value) in PROFILE_FIELDS \
                     and n.func.attr in ("append", "add", "update", "pop", "remove", "setdefault", "extend", "insert", "clear", "popitem"):
                 if n.func.attr == "append" and isinstance(n.func.value, ast.Subscript):
-                    out.append((f, n, "append", "class appended to an instance entry"))
+                    pm = pm or parent_map(f.node)
+                    cur, nested = n, False
+                    while cur in pm:
+                        cur = pm[cur]
+                        if isinstance(cur, ast.If) and isinstance(cur.test, ast.Compare) and len(cur.test.ops) == 1 \
+                                and isinstance(cur.test.ops[0], ast.NotIn) and norm(cur.test.comparators[0]) == norm(n.func.value.value) \
+                                and norm(cur.test.left) == norm(n.func.value.slice) and any(n is y for s2 in cur.body for y in ast.walk(s2)):
+                            nested = True
+                    if nested:
+                        out.append((f, n, "BAD", "the class is appended only when the node is seen for the first time: a node selected "
+                                                   "for several classes / labels keeps only the first"))
+                    else:
+                        out.append((f, n, "append", "class appended to an instance entry"))
                 else:
                     out.append((f, n, "BAD", "accumulator mutated with .%s(): `%s`" % (n.func.attr, norm(n)[:70])))
     return out
